@@ -392,9 +392,10 @@ def inline_new_helpers(tree, known):
                                 continue
                             else:
                                 x2 = ast.Expr(value=x2.value)
-                        for y in ast.walk(x2):
+                        # (all on the line of the call, in source order: rules that order constructs by position)
+                        for j, y in enumerate(_ordered(x2)):
                             if hasattr(y, 'lineno') or isinstance(y, (ast.expr, ast.stmt)):
-                                y.lineno, y.col_offset = st.lineno, st.col_offset
+                                y.lineno, y.col_offset = st.lineno, st.col_offset + 10000 * (len(new) + 1) + j
                                 y.end_lineno, y.end_col_offset = st.end_lineno, st.end_col_offset
                         new.append(x2)
                     if isinstance(st, ast.Assign) and not any(isinstance(x, ast.Return) for x in body):
